@@ -1,5 +1,6 @@
 SPECIFICATION Spec
 CONSTANTS
+  WithFeeGrant = FALSE
   MaxHeight = 5
   MaxTx = 6
   MaxFail = 1
